@@ -1,5 +1,7 @@
 import OcppModel.Containers
 import OcppModel.Expected
+import OcppModel.Tables
+import OcppModel.Registry
 import OcppModel.DateTime
 import OcppModel.DriverDateTime
 import OcppModel.DriverContainers
